@@ -27,7 +27,7 @@ def run(ctx):
     def job(name, args):
         return lambda: vlib.replay(ctx, "cafs-corrupt", cases, name, args + ["--seed", str(seed)])
 
-    jobs.append(job("a", ["--leaf", "64"]))
+    jobs.append(job("a", ["--leaf", "64", "--download", "--work", ctx.sub("dl")]))
     jobs.append(job("b", ["--leaf", "4096", "--crc"] if seed % 2 else ["--leaf", "96", "--crc", "--boundary"]))
     if ctx.thorough:
         jobs.append(job("all64", ["--leaf", "64", "--all-bytes"]))
@@ -42,9 +42,10 @@ def run(ctx):
                           "exhaustively by TLC; each case expands into byte-level variants (first/last byte of the cell, "
                           "every byte in the thorough tier); non-trivial = the damage changes the stored bytes; every case "
                           "is observed through Read (2 buffer sizes), ReadAll, WriteTo(io.Writer), WriteTo(io.WriterAt), "
-                          "ReadAt(whole) and the ranged ReadAt table")
+                          "ReadAt(whole), the ranged ReadAt table and a full bundle download (core.Publish) at concurrency 1 and 4")
     return vlib.finish(ctx, "model_checking", {}, [
         "damage happens at rest: reads use a fresh cafs instance (no cached leaf keys of the undamaged root)",
         "a ranged read that touches no damaged leaf may succeed or fail; every other read of a damaged object must fail",
-        "bundle download (core.Publish) of damaged blobs is covered by the bundle checks once the metadata model is bound",
+        "bundle download: a one-file bundle is uploaded with pkg/core, the blob is damaged, core.Publish into a local "
+        "directory must fail or produce the exact file (a partial file left behind by a FAILED download is not judged)",
     ])
